@@ -31,6 +31,10 @@ func (l Leg) String() string {
 		return fmt.Sprintf("%s in %v", l.Field, l.In)
 	case "in64":
 		return fmt.Sprintf("%s in %v", l.Field, l.In64)
+	case "empty":
+		return l.Field + " IS_EMPTY"
+	case "notempty":
+		return l.Field + " IS_NOT_EMPTY"
 	}
 	if l.Field == "n" {
 		return fmt.Sprintf("n %s %d", l.Op, l.I)
@@ -60,6 +64,18 @@ func (f *Filt) String() string {
 // always carry all three fields with the expected kinds, so the semantics of
 // missing fields / cross-kind comparison never matter.
 func evalLeg(l Leg, b Body) bool {
+	switch l.Op {
+	case "empty", "notempty":
+		// present field: "nil/unset or empty string" — an integer is never empty
+		e := false
+		switch l.Field {
+		case "status":
+			e = b.Status == ""
+		case "owner":
+			e = b.Owner == ""
+		}
+		return e == (l.Op == "empty")
+	}
 	if l.Field == "n" {
 		v := b.N
 		switch l.Op {
@@ -158,6 +174,14 @@ func (f *Filt) fields(into map[string]bool) {
 func legProto(l Leg) *hydrapb.TreasureFilter {
 	p := l.Field
 	tf := &hydrapb.TreasureFilter{BytesFieldPath: &p}
+	switch l.Op {
+	case "empty":
+		tf.Operator = hydrapb.Relational_IS_EMPTY
+		return tf
+	case "notempty":
+		tf.Operator = hydrapb.Relational_IS_NOT_EMPTY
+		return tf
+	}
 	if l.Field == "n" {
 		switch l.Op {
 		case "eq":
@@ -323,19 +347,17 @@ func evalFiltPartial(f *Filt, b Body, has fieldSet) bool {
 		return true
 	}
 	leg := func(l Leg) bool {
+		missing := false
 		switch l.Field {
 		case "status":
-			if !has.St {
-				return false
-			}
+			missing = !has.St
 		case "owner":
-			if !has.Ow {
-				return false
-			}
+			missing = !has.Ow
 		case "n":
-			if !has.N {
-				return false
-			}
+			missing = !has.N
+		}
+		if missing {
+			return l.Op == "empty" // an unset field IS_EMPTY; every other operator is false on it
 		}
 		return evalLeg(l, b)
 	}
@@ -383,4 +405,56 @@ func applyOpsPartial(ops []POp, b Body, has fieldSet) (Body, fieldSet) {
 		}
 	}
 	return b, has
+}
+
+// evalFiltOpaque evaluates a filter on a record whose value is not a msgpack map (typed value,
+// bytes without the msgpack magic): for the evaluator behind reads, Shift* and PatchExpired every
+// body-field leg is then false except IS_EMPTY, which is true ("field is nil/unset").
+func evalFiltOpaque(f *Filt) bool {
+	if f == nil {
+		return true
+	}
+	leg := func(l Leg) bool { return l.Op == "empty" }
+	if f.Or {
+		for _, l := range f.Legs {
+			if leg(l) {
+				return true
+			}
+		}
+		for i := range f.Subs {
+			if evalFiltOpaque(&f.Subs[i]) {
+				return true
+			}
+		}
+		return false
+	}
+	for _, l := range f.Legs {
+		if !leg(l) {
+			return false
+		}
+	}
+	for i := range f.Subs {
+		if !evalFiltOpaque(&f.Subs[i]) {
+			return false
+		}
+	}
+	return true
+}
+
+// hasEmptyLeg reports whether the filter contains an IS_EMPTY leg.
+func (f *Filt) hasEmptyLeg() bool {
+	if f == nil {
+		return false
+	}
+	for _, l := range f.Legs {
+		if l.Op == "empty" {
+			return true
+		}
+	}
+	for i := range f.Subs {
+		if f.Subs[i].hasEmptyLeg() {
+			return true
+		}
+	}
+	return false
 }
